@@ -100,6 +100,9 @@ func (k *KeyPair) CertLayout(layout string) string {
 		return wrap(76)
 	case "padded":
 		return "  " + b + "\n"
+	case "indented":
+		// wrapped, continuation lines indented with blanks and tabs (what pretty printers produce)
+		return "\n        " + strings.ReplaceAll(strings.TrimRight(wrap(64), "\n"), "\n", "\n\t    ") + "\n      "
 	default:
 		return b
 	}
